@@ -1,4 +1,6 @@
 import ESRVerif.Proofs.PrinterSem
+import ESRVerif.Proofs.PrinterLex
+import ESRVerif.Proofs.PrinterReal
 import ESRVerif.Generated.SymTab
 /-!
 C12 — printing an expression and reading it back gives the same function; printing is a pure function.
@@ -6,10 +8,14 @@ C12 — printing an expression and reading it back gives the same function; prin
 Objects: `SExpr` (sympy trees, unbounded depth), `pr`/`print` (model of `ESRPrinter`), `Phrase` (Python's expression
 grammar), `parse` (executable parser), `intended` (how the text is meant to be read), `evalS` (value of a tree),
 `evalPy tbl` (value of a Python AST under a symbol table), `genTable`/`fitTable` (regenerated from the source),
-`RealLike` (real-number operations with the laws used).  Hypotheses: `canonical e` (sympy's evaluated form, see
+`RealLike` (real-number operations with the laws used; `Proofs/PrinterReal.lean` proves every law for `ℝ` with
+Mathlib's `Real.rpow`, `zpow`, `Real.sqrt/exp/log/sin`, `|·|` — the `…_real` theorems below have no law hypothesis
+left), `tokenize`/`parseString` (characters → tokens → AST; `Proofs/PrinterLex.lean` proves the string ↔ token
+bridge, so the `…_string` theorems speak about the printed STRING).  Hypotheses: `canonical e` (sympy's evaluated form, see
 `Model/Printer.lean`) and `Adm tbl wrapLog ρ e` (symbols are not table functions; bases of non-integer powers are
 non-negative at ρ; for a table whose `log` wraps `Abs`, arguments of `log` are non-negative at ρ) — the property's
-"real-valued expression of the kind ESR produces".
+"real-valued expression of the kind ESR produces"; for the string-level theorems also `lexical e` (symbol names
+are identifiers, Float texts are Float literals `d+.d*[e[±]d+]` — what sympy prints).
 -/
 namespace ESR.C12
 open ESR.Printer ESR.SymTerm ESR.Gen.SymTab
@@ -99,6 +105,95 @@ theorem stages_agree (ρ : String → α) (e : SExpr) (he : canonical e = true)
     (parse (pr e)).bind (evalPy genTable ρ) = (parse (pr e)).bind (evalPy fitTable ρ) := by
   rw [print_roundtrip_gen ρ e he hg, print_roundtrip_fit ρ e he hf]
 
+/-! ### the string ↔ token bridge -/
+
+/-- the tokenizer inverts `render` on every token list whose tokens are lexically well formed (`tokOK`: names are
+identifiers, Float texts have the shape `d+ . d* [(e|E)[+-]d+]`, no error token) and in which no two adjacent tokens
+would fuse (`noFuse`: no name/int/float directly followed by a name/int/float, no `*` directly followed by `*` or
+`**`).  Any token list, not only printed ones. -/
+theorem tokenize_render (ts : List Tok) (hok : ts.all tokOK = true) (hnf : noFuse ts = true) :
+    tokenize (render ts) = some ts :=
+  ESR.Printer.tokenize_render ts hok hnf
+
+/-- the tokens of every phrase of the Python grammar are separated by operators or brackets: none fuse -/
+theorem phrase_noFuse {l : Lvl} {ts : List Tok} {a : PyAst} (h : Phrase l ts a) : noFuse ts = true :=
+  (phrase_sepOK h).nf
+
+/-- what the printer emits for a canonical, lexical expression satisfies the well-formedness predicate of
+`tokenize_render` -/
+theorem print_tokens_wellformed (e : SExpr) (he : canonical e = true) (hl : lexical e = true) :
+    (pr e).all tokOK = true ∧ noFuse (pr e) = true :=
+  ⟨allOK_pr_of_size (size e) e (Nat.le_refl _) he hl, noFuse_pr e he⟩
+
+/-- the tokenizer recovers the printer's tokens from the printed string -/
+theorem tokenize_print (e : SExpr) (he : canonical e = true) (hl : lexical e = true) :
+    tokenize (print e) = some (pr e) :=
+  tokenize_print' e he hl
+
+/-- print then parse, at the level of STRINGS: reading the printed string (characters → tokens → grammar) gives
+`intended e` -/
+theorem parseString_print (e : SExpr) (he : canonical e = true) (hl : lexical e = true) :
+    parseString (print e) = some (intended e) := by
+  simp only [parseString, tokenize_print e he hl, Option.bind_some]
+  exact parse_print e he
+
+/-- string-level round trip, generation stage (any structure satisfying the laws) -/
+theorem print_roundtrip_gen_string (ρ : String → α) (e : SExpr) (he : canonical e = true) (hl : lexical e = true)
+    (ha : Adm genTable false ρ e) : (parseString (print e)).bind (evalPy genTable ρ) = some (evalS ρ e) := by
+  rw [parseString_print e he hl]; exact intended_sound_gen ρ e he ha
+
+/-- string-level round trip, fitting stage (any structure satisfying the laws) -/
+theorem print_roundtrip_fit_string (ρ : String → α) (e : SExpr) (he : canonical e = true) (hl : lexical e = true)
+    (ha : Adm fitTable true ρ e) : (parseString (print e)).bind (evalPy fitTable ρ) = some (evalS ρ e) := by
+  rw [parseString_print e he hl]; exact intended_sound_fit ρ e he ha
+
+/-! ### over the real numbers: no abstract law left
+
+`RealLike ℝ` is the instance `ESR.Printer.realLike` (`Proofs/PrinterReal.lean`): `rpow = Real.rpow`, `ipow = zpow`,
+`sqrt = Real.sqrt`, `exp/log/sin = Real.exp/log/sin`, `abs = |·|`, `div/inv` the field operations with `x/0 = 0`,
+`nonneg a ↔ 0 ≤ a`; all fifteen laws are proved there from Mathlib.  `evalS ρ e : ℝ` is then the real number the
+expression denotes at `ρ` and `Adm` reads: symbols are not table functions, bases of non-integer powers are `≥ 0` at
+`ρ`, (fitting table) arguments of `log` are `≥ 0` at `ρ`. -/
+
+theorem intended_sound_gen_real (ρ : String → ℝ) (e : SExpr) (he : canonical e = true) (ha : Adm genTable false ρ e) :
+    evalPy genTable ρ (intended e) = some (evalS ρ e) :=
+  intended_sound_gen ρ e he ha
+
+theorem intended_sound_fit_real (ρ : String → ℝ) (e : SExpr) (he : canonical e = true) (ha : Adm fitTable true ρ e) :
+    evalPy fitTable ρ (intended e) = some (evalS ρ e) :=
+  intended_sound_fit ρ e he ha
+
+/-- round trip over `ℝ`, generation stage, tokens -/
+theorem print_roundtrip_gen_real (ρ : String → ℝ) (e : SExpr) (he : canonical e = true) (ha : Adm genTable false ρ e) :
+    (parse (pr e)).bind (evalPy genTable ρ) = some (evalS ρ e) :=
+  print_roundtrip_gen ρ e he ha
+
+/-- round trip over `ℝ`, fitting stage, tokens -/
+theorem print_roundtrip_fit_real (ρ : String → ℝ) (e : SExpr) (he : canonical e = true) (ha : Adm fitTable true ρ e) :
+    (parse (pr e)).bind (evalPy fitTable ρ) = some (evalS ρ e) :=
+  print_roundtrip_fit ρ e he ha
+
+/-- **round trip over `ℝ` at the level of strings, generation stage**: tokenize and parse the printed string, evaluate
+with `sympy_locs`: the real number the expression denotes -/
+theorem print_roundtrip_gen_string_real (ρ : String → ℝ) (e : SExpr) (he : canonical e = true) (hl : lexical e = true)
+    (ha : Adm genTable false ρ e) : (parseString (print e)).bind (evalPy genTable ρ) = some (evalS ρ e) :=
+  print_roundtrip_gen_string ρ e he hl ha
+
+/-- **round trip over `ℝ` at the level of strings, fitting stage** -/
+theorem print_roundtrip_fit_string_real (ρ : String → ℝ) (e : SExpr) (he : canonical e = true) (hl : lexical e = true)
+    (ha : Adm fitTable true ρ e) : (parseString (print e)).bind (evalPy fitTable ρ) = some (evalS ρ e) :=
+  print_roundtrip_fit_string ρ e he hl ha
+
+/-- both stages read the printed string as the same real number -/
+theorem stages_agree_string_real (ρ : String → ℝ) (e : SExpr) (he : canonical e = true) (hl : lexical e = true)
+    (hg : Adm genTable false ρ e) (hf : Adm fitTable true ρ e) :
+    (parseString (print e)).bind (evalPy genTable ρ) = (parseString (print e)).bind (evalPy fitTable ρ) := by
+  rw [print_roundtrip_gen_string_real ρ e he hl hg, print_roundtrip_fit_string_real ρ e he hl hf]
+
+/-- the side condition of the law `rpow_neg` (granted by `Adm`) cannot be dropped over `ℝ` -/
+theorem rpow_neg_side_condition_needed : ((-1 : ℝ) ^ (-(1/3 : ℝ))) ≠ ((-1 : ℝ) ^ (1/3 : ℝ))⁻¹ :=
+  rpow_neg_needs_nonneg
+
 /-! ### non-vacuity -/
 
 /-- `-x*(a0 + 1)/a1**2 + pow(Abs(a0),(-3/2)) - 1/2` -/
@@ -132,5 +227,45 @@ example : (parse (pr ex2)).bind (@evalPy (Fin 3) modelF3 fitTable (fun _ => 1)) 
     (by simp [ex2, Adm, AdmL, symOK, Table.find, fitTable, isIntegerLit, evalS, RealLike.nonneg])
 /-- an expression outside the canonical form (a sum nested in a sum) is rejected by the hypothesis, not silently accepted -/
 example : canonical (.add [.add [.sym "x", .sym "a0"], .sym "a1"]) = false := by decide
+
+/-! #### strings and reals -/
+
+/-- `2.5*x**2 - 1/2` -/
+def ex3 : SExpr := .add [.mul (.flt false "2.5") [.pow (.sym "x") (.num (.int 2))], .num (.rat (-1) 2)]
+
+example : lexical ex1 = true := by decide
+example : lexical ex2 = true := by decide
+example : canonical ex3 = true ∧ lexical ex3 = true := by decide
+/-- a symbol that is not an identifier, a Float text that is not a literal: rejected by the hypothesis -/
+example : lexical (.sym "a b") = false ∧ lexical (.num (.flt false "1e")) = false := by decide
+example : tokenize (print ex1) = some (pr ex1) := tokenize_print ex1 (by decide) (by decide)
+example : parseString (print ex2) = some (intended ex2) := parseString_print ex2 (by decide) (by decide)
+/-- two names in a row fuse: the predicate of `tokenize_render` excludes them -/
+example : noFuse [Tok.name "a", Tok.name "b"] = false ∧ noFuse [Tok.star, Tok.star] = false ∧
+    noFuse [Tok.name "a", Tok.star, Tok.name "b", Tok.dstar, Tok.int 2] = true := by decide
+
+/-- `ex1` is admissible at EVERY real point (its only non-integer power has base `|a0|`): the string-level round
+trip over `ℝ` holds for all real values of `x, a0, a1`, with no hypothesis left -/
+example (ρ : String → ℝ) : (parseString (print ex1)).bind (evalPy genTable ρ) = some (evalS ρ ex1) :=
+  print_roundtrip_gen_string_real ρ ex1 (by decide) (by decide)
+    (by simp [ex1, Adm, AdmL, symOK, Table.find, genTable, isIntegerLit, evalS, evalFn])
+
+/-- a concrete valuation: x = 2, a0 = 3, a1 = 1/2 -/
+noncomputable def ρ0 : String → ℝ := fun s => if s = "x" then 2 else if s = "a0" then 3 else 1 / 2
+
+/-- `ex2 = 2*sqrt(x)*log(x)/(3*pow(x,a0)*exp(a1))` at `ρ0`, fitting table, from the printed string -/
+example : (parseString (print ex2)).bind (evalPy fitTable ρ0) = some (evalS ρ0 ex2) :=
+  print_roundtrip_fit_string_real ρ0 ex2 (by decide) (by decide)
+    (by simp [ex2, Adm, AdmL, symOK, Table.find, fitTable, isIntegerLit, evalS, ρ0])
+
+/-- and the value is the real number one expects: `2.5*x**2 - 1/2` at x = 2 is `19/2` -/
+example : evalS ρ0 ex3 = 19 / 2 := by
+  simp [ex3, evalS, evalSL, sumL, powS, evalNum, fltReal, digitsToNat, ρ0]
+  norm_num
+example : (parseString (print ex3)).bind (evalPy genTable ρ0) = some (19 / 2) := by
+  rw [print_roundtrip_gen_string_real ρ0 ex3 (by decide) (by decide)
+    (by simp [ex3, Adm, AdmL, symOK, Table.find, genTable, isIntegerLit])]
+  simp [ex3, evalS, evalSL, sumL, powS, evalNum, fltReal, digitsToNat, ρ0]
+  norm_num
 
 end ESR.C12
